@@ -27,9 +27,13 @@ sys.path.insert(0, os.path.join(ENG, "arm64"))
 import gen_arm64  # noqa: E402
 import render  # noqa: E402
 
-CRATE = os.path.join(common.WORK, "kani_arm64")
-TD = os.path.join(common.WORK, "kani_arm64_td")        # kani target dirs, one per worker
-NATIVE_TD = os.path.join(common.WORK, "kani_arm64_native")
+# VERIF_C08_WORKTAG: separate work directories (and no evidence file) for development / mutation runs
+# that must not disturb a registered run
+TAG = os.environ.get("VERIF_C08_WORKTAG", "")
+CRATE = os.path.join(common.WORK, "kani_arm64" + TAG)
+TD = os.path.join(common.WORK, "kani_arm64" + TAG + "_td")        # kani target dirs, one per worker
+NATIVE_TD = os.path.join(common.WORK, "kani_arm64" + TAG + "_native")
+LOCK = "kani_arm64" + TAG
 LLVM_MC = shutil.which("llvm-mc-14") or shutil.which("llvm-mc")
 
 KANI_FLAGS = ["-Z", "unstable-options", "-Z", "stubbing", "--no-memory-safety-checks", "--no-assertion-reach-checks"]
@@ -201,7 +205,7 @@ def run_kani(hs, log, extra=()):
 # native replay
 
 def build_native():
-    with common.Lock("kani_arm64_native"):
+    with common.Lock(LOCK + "_native"):
         p = common.run(["cargo", "build", "--offline", "-q", "--bin", "arm64-replay", "--target-dir", NATIVE_TD],
                        cwd=CRATE, timeout=1800, check=False)
         if p.returncode != 0:
@@ -297,6 +301,8 @@ def replay_one(binary, info, method, kind, args):
             raise common.Inconclusive("reference decoder rejects %s -> %s but llvm-mc prints the expected text '%s' (decoder/spec defect)"
                                       % (call, ["%08x" % w for w in words], want))
     hexw = " ".join("%08x" % w for w in words)
+    if r.get("note"):
+        call += " [" + r["note"] + "]"
     if not r["legal"]:
         what = "%s: operands that cannot be encoded are accepted; emitted %s = [%s]" % (call, hexw, "; ".join(dis))
     else:
@@ -348,7 +354,7 @@ def main(tier):
     t0 = time.time()
     common.ensure_dirs()
     rep = common.Reporter(PID)
-    with common.Lock("kani_arm64"):
+    with common.Lock(LOCK):
         info = gen_arm64.generate(CRATE)
         hs = [h for h in info["harnesses"] if tier == "thorough" or h["tier"] == "quick"]
         only = os.environ.get("VERIF_C08_ONLY")
@@ -377,11 +383,14 @@ def main(tier):
                 if pr is None or not pr.playback:
                     inconclusive.append((h["name"], "no counterexample values could be extracted"))
                     continue
-                # the CEX cover witness first, then the failing post-assertion, then (harnesses in which
-                # no panic is allowed) any other failing check
-                wanted = [p for p in pr.playback if "CEX" in p[0]] + [p for p in pr.playback if "POST" in p[0]]
-                if h["kind"] not in ANY_STYLE:
-                    wanted += [p for p in pr.playback if "VACUITY" not in p[0] and "CEX" not in p[0] and "POST" not in p[0]]
+                # Every set of values Kani printed is a candidate (Kani prints one playback test per
+                # DISTINCT value vector, so the witness of the violated post-condition may be filed under
+                # another check, e.g. the vacuity cover); the native replay decides.  Priority: the CEX
+                # cover witness, the failing post-assertion, other failing checks, the vacuity witness.
+                def prio(p):
+                    d = p[0]
+                    return 0 if "CEX" in d else 1 if "POST" in d else 3 if "VACUITY" in d else 2
+                wanted = sorted(pr.playback, key=prio)
                 reproduced = False
                 seen = set()
                 for desc, vals in wanted:
@@ -447,7 +456,11 @@ def main(tier):
             "arithmetic overflow panics (debug / overflow-checks=on semantics) count as refusals",
             "ldr_mem_*/str_mem_*: scratch differs from base (and from the stored register)",
         ]
-        common.write_evidence(PID, tier, "proof", cov, assumptions, time.time() - t0, violations=len(rep.new))
+        if TAG:
+            with open(os.path.join(CRATE, "evidence.json"), "w") as f:
+                json.dump({"coverage": cov, "wall_s": time.time() - t0, "violations": len(rep.new)}, f, indent=1, default=str)
+        else:
+            common.write_evidence(PID, tier, "proof", cov, assumptions, time.time() - t0, violations=len(rep.new))
         for n, w in inconclusive[:10]:
             common.log("  inconclusive %s: %s" % (n, w))
         if not_reproduced:
@@ -520,7 +533,7 @@ def oracle_validation(binary, info):
 
 def replay(path):
     obj = json.load(open(path))["replay"]
-    with common.Lock("kani_arm64"):
+    with common.Lock(LOCK):
         if obj.get("asm_src") and os.path.dirname(os.path.dirname(obj["asm_src"])) != gen_arm64.asm_dir():
             common.log("[C08] note: replaying against %s (recorded: %s)" % (gen_arm64.asm_dir(), obj["asm_src"]))
         info = gen_arm64.generate(CRATE)
